@@ -83,6 +83,12 @@ struct Case {
 	long order;
 	int idx_of_fd[4096];
 	std::vector<char *> bufs;
+	// deadline_timer objects used through TO/CO: the wait the script believes outstanding (last armed, not completed, not cancelled)
+	std::map<long long, aio::deadline_timer *> tobjs;
+	std::map<long long, long long> tcur;          // object -> handler id
+	std::map<long long, long long> towner;        // handler id -> object
+	std::vector<std::string> cancels;             // effective cancel() calls: handler@time
+	std::map<int, std::set<long long> > rdwait;   // device -> read-kind handlers submitted and not completed
 } *C = 0;
 
 std::string itos(long long v) { char b[32]; snprintf(b, sizeof(b), "%lld", v); return b; }
@@ -113,6 +119,8 @@ void on_run_s(long long k, std::string const &code)
 	C->log.push_back(itos(k) + ":" + code + "@" + itos(C->vms));
 	C->pending_posts.erase(k);
 	C->ran.insert(k);
+	for(std::map<int, std::set<long long> >::iterator q = C->rdwait.begin(); q != C->rdwait.end(); ++q) q->second.erase(k);
+	if(C->towner.count(k)) { long long ob = C->towner[k]; if(C->tcur.count(ob) && C->tcur[ob] == k) C->tcur.erase(ob); }
 	std::map<long long, std::vector<Op> >::iterator p = C->bodies.find(k);
 	if(p != C->bodies.end()) {
 		std::vector<Op> ops = p->second;   // copy: the body runs once per invocation
@@ -177,6 +185,47 @@ void exec_op(Op const &o)
 			c.raworder[o.a] = ++c.order;
 		}
 	}
+	else if(t == "TO") {
+		// arm the deadline_timer OBJECT o.b (created on first use) with handler o.a: expires_at + async_wait
+		long long ob = o.b, dl = c.vms + o.c;
+		c.subs.push_back(itos(o.a) + ":t" + itos(dl));
+		c.tdeadline[o.a] = dl;
+		if(!c.tobjs.count(ob)) c.tobjs[ob] = new aio::deadline_timer(*c.srv);
+		c.towner[o.a] = ob;
+		c.tcur[ob] = o.a;
+		HEv h = { o.a };
+		c.tobjs[ob]->expires_at(abs_time(dl));
+		c.tobjs[ob]->async_wait(h);
+	}
+	else if(t == "CO") {
+		// cancel() on the object, only while the wait believed outstanding is certainly still armed (deadline in the future)
+		long long ob = o.a;
+		if(c.tobjs.count(ob) && c.tcur.count(ob) && c.tdeadline[c.tcur[ob]] > c.vms) {
+			long long k = c.tcur[ob];
+			c.tcur.erase(ob);
+			c.tgone.insert(k);
+			c.cancels.push_back(itos(k) + "@" + itos(c.vms));
+			c.tobjs[ob]->cancel();
+		}
+	}
+	else if(t == "RO") {
+		// a new socket that receives the descriptor NUMBER of the closed device f (numbers are reused by the OS) is assigned to the device
+		if(c.closedA[f] && c.fa[f] >= 0) {
+			int sv[2];
+			if(socketpair(AF_UNIX, SOCK_STREAM, 0, sv) < 0) { c.flags.insert("HARNESS-socketpair"); return; }
+			int a = c.fa[f];
+			if(sv[0] != a) { if(dup2(sv[0], a) != a) { c.flags.insert("HARNESS-dup2"); return; } ::close(sv[0]); }
+			int b = fcntl(sv[1], F_DUPFD, 100); ::close(sv[1]);
+			if(!c.closedB[f]) ::close(c.fb[f]);
+			c.fb[f] = b; c.closedB[f] = false; c.closedA[f] = false;
+			int sz = 4096;
+			setsockopt(a, SOL_SOCKET, SO_SNDBUF, &sz, sizeof(sz));
+			fcntl(a, F_SETFL, fcntl(a, F_GETFL, 0) | O_NONBLOCK);
+			fcntl(b, F_SETFL, fcntl(b, F_GETFL, 0) | O_NONBLOCK);
+			c.dev[f]->assign(a);
+			c.idx_of_fd[a] = f;
+		}
+	}
 	else if(t == "CT") {
 		if(c.dts.count(o.a)) {
 			// deadline_timer object: call cancel() only while the timer is certainly still armed (see docs/C17.md:
@@ -203,12 +252,14 @@ void exec_op(Op const &o)
 		f = int(o.b);
 		c.subs.push_back(itos(o.a) + ":" + (t == "I" ? "i" : "o") + itos(f));
 		HEv h = { o.a };
+		if(t == "I") c.rdwait[f].insert(o.a);
 		if(t == "I") c.dev[f]->on_readable(h); else c.dev[f]->on_writeable(h);
 	}
 	else if(t == "RS" || t == "WS") {
 		f = int(o.b);
 		c.subs.push_back(itos(o.a) + ":" + (t == "RS" ? "r" : "w") + itos(f));
 		HXfer h = { o.a };
+		if(t == "RS") c.rdwait[f].insert(o.a);
 		if(t == "RS") c.dev[f]->async_read_some(aio::buffer(xfer_buf, sizeof(xfer_buf)), h);
 		else c.dev[f]->async_write_some(aio::buffer(static_cast<char const *>(xfer_buf), 1), h);
 	}
@@ -218,6 +269,7 @@ void exec_op(Op const &o)
 		char *buf = new char[16]();   // lives until the end of the case (the operation may complete at any later time)
 		c.bufs.push_back(buf);
 		HAll h = { o.a, buf };
+		if(t == "RA") c.rdwait[f].insert(o.a);
 		if(t == "RA") c.dev[f]->async_read(aio::buffer(buf, size_t(o.c)), h);
 		else c.dev[f]->async_write(aio::buffer(static_cast<char const *>(buf), size_t(o.c)), h);
 	}
@@ -295,6 +347,13 @@ void nothing_ready(int timeout)
 	if(timeout > 0 && timeout < IDLE_MS) { c.vms += timeout; return; }
 	// the loop would now block "for ever": nothing queued, no timer
 	if(!c.pending_posts.empty()) c.flags.insert("LOSTWAKE");
+	// ... and no open descriptor with unread input may have a read wait outstanding (the reactor must have reported it)
+	for(int f = 0; f < c.nfd; f++) {
+		if(c.mode.size() != 2 || c.mode[1] != 's') break;   // only scripts that respect the API contract (no double arms, no finding replays)
+		if(c.closedA[f] || c.rdwait[f].empty()) continue;
+		struct pollfd pf; pf.fd = c.fa[f]; pf.events = POLLIN; pf.revents = 0;
+		if(syscall(SYS_poll, &pf, 1, 0) > 0 && (pf.revents & POLLIN)) c.flags.insert("MISSEDREADY");
+	}
 	if(c.stage == 0 && c.next_phase < c.phases.size()) return;   // next poll runs the next phase
 	if(c.stage == 0 || (c.stage == 1 && c.subs.size() != c.mark)) {
 		// end of script: cancel every descriptor (like closing them); repeat while cancelled handlers re-arm
@@ -437,11 +496,12 @@ bool parse(std::vector<std::string> const &tok, Case &c, std::string &err)
 		if(t == "X") ar = 0;
 		else if(t == "P" || t == "PE" || t == "PI" || t == "CT" || t == "CF" || t == "CL" || t == "W" || t == "R" || t == "F" || t == "D" || t == "K" || t == "A") ar = 1;
 		else if(t == "T" || t == "U" || t == "I" || t == "O" || t == "RS" || t == "WS") ar = 2;
-		else if(t == "RA" || t == "WA") ar = 3;
+		else if(t == "RA" || t == "WA" || t == "TO") ar = 3;
+		else if(t == "RO" || t == "CO") ar = 1;
 		if(ar < 0 || !cur) { err = "op " + t; return false; }
 		if(i + ar > tok.size() - 1) { err = "arity " + t; return false; }
 		Op o; o.t = t; o.a = ar >= 1 ? atoll(tok[i + 1].c_str()) : 0; o.b = ar >= 2 ? atoll(tok[i + 2].c_str()) : 0; o.c = ar >= 3 ? atoll(tok[i + 3].c_str()) : 0;
-		bool fdop1 = (t == "CF" || t == "CL" || t == "W" || t == "R" || t == "F" || t == "D" || t == "K");
+		bool fdop1 = (t == "RO" || t == "CF" || t == "CL" || t == "W" || t == "R" || t == "F" || t == "D" || t == "K");
 		bool fdop2 = (t == "I" || t == "O" || t == "RS" || t == "WS" || t == "RA" || t == "WA");
 		if((t == "RA" || t == "WA") && (o.c < 1 || o.c > 8)) { err = "byte count"; return false; }
 		long long f = fdop2 ? o.b : fdop1 ? o.a : 0;
@@ -505,6 +565,7 @@ std::string loop_case(std::vector<std::string> const &tok)
 			// stopped by the script: reset and run again; the next phase executes in between (no reactor)
 			c.srv->reset();
 			c.pending_posts.clear();   // reset() discards the dispatch queue
+			c.rdwait.clear();          // ... and the descriptor table
 			// ... including handlers of timers that were already due: they are out of the timer table and will never run
 			for(std::map<long long, long long>::iterator p = c.tdeadline.begin(); p != c.tdeadline.end(); ++p)
 				if(p->second <= c.vms) c.tgone.insert(p->first);
@@ -521,9 +582,10 @@ std::string loop_case(std::vector<std::string> const &tok)
 		c.flags.insert("EXC");
 	}
 	if(restarts > 200) c.flags.insert("LIVELOCK");
-	std::string out = "loop sub=" + join(c.subs) + " log=" + join(c.log) + " flags=" + join(std::vector<std::string>(c.flags.begin(), c.flags.end())) + " mode=" + c.mode;
+	std::string out = "loop sub=" + join(c.subs) + " log=" + join(c.log) + " cancels=" + join(c.cancels) + " flags=" + join(std::vector<std::string>(c.flags.begin(), c.flags.end())) + " mode=" + c.mode;
 	c17_virtual = false;
 	for(std::map<long long, aio::deadline_timer *>::iterator p = c.dts.begin(); p != c.dts.end(); ++p) delete p->second;
+	for(std::map<long long, aio::deadline_timer *>::iterator p = c.tobjs.begin(); p != c.tobjs.end(); ++p) delete p->second;
 	for(int f = 0; f < c.nfd; f++) {
 		delete c.dev[f];           // closes side A if still open
 		if(!c.closedB[f]) ::close(c.fb[f]);
